@@ -54,6 +54,7 @@ func init() {
 	register("C19", "apply", 2, simC19Apply)
 	register("C19", "pathsets", 2, simC19PathSets)
 	register("C17", "store", 1, simC17Store)
+	register("C06", "monitor", 1, simC06Monitor)
 }
 
 func pickSim(prop string, index uint64) simEntry {
